@@ -249,7 +249,13 @@ def o_C04(sc):
     L = mkl(sc)
     kw = dict(kwargs_of(sc)); mt = mt_of(sc)
     (s1, ts, te), (s2, _, _) = sc['trains'][:2]
-    m = Fr(sc['kw'].get('mrts') or 0)
+    auto = sc['kw'].get('mrts') == 'auto'
+    if auto:
+        # the pair threshold of the definition part is the pooled rms of the two trains
+        from pyspike.isi_lengths import default_thresh
+        m = Fr(float(quiet(default_thresh, quiet(spk.spikes.reconcile_spike_trains, [L[0], L[1]]))))
+    else:
+        m = Fr(sc['kw'].get('mrts') or 0)
     mtq = Fr(sc['kw'].get('max_tau') or 0)
     C = coinc_matrix(s1, s2, ts, te, mtq, m)
     d1 = [0] * len(s1); d2 = [0] * len(s2)
@@ -282,6 +288,12 @@ def o_C04(sc):
     if not feq(a, -b) or not feq(a, sum(d1)):
         return 'C04 un-normalised directionality %r / swapped %r, expected %s' % (a, b, sum(d1))
     if len(L) > 2:
+        # pair calls that are compared with a multivariate 'auto' call get the pooled threshold
+        # of the whole (reconciled) list explicitly — that is what 'auto' stands for there
+        kwp = dict(kw)
+        if auto:
+            from pyspike.isi_lengths import default_thresh
+            kwp['MRTS'] = float(quiet(default_thresh, quiet(spk.spikes.reconcile_spike_trains, L)))
         idx = sc.get('indices')
         ikw = {} if idx is None else {'indices': idx}
         n = len(L) if idx is None else len(idx)
@@ -299,7 +311,7 @@ def o_C04(sc):
         acc = {}
         for a_ in range(n):
             for b_ in range(a_ + 1, n):
-                pb = quiet(spk.spike_train_order_profile, sel[a_], sel[b_], **mt, **kw)
+                pb = quiet(spk.spike_train_order_profile, sel[a_], sel[b_], **mt, **kwp)
                 for x, y, mp in list(zip(pb.x, pb.y, pb.mp))[1:-1]:
                     e = acc.setdefault(float(x), [0.0, 0.0]); e[0] += y; e[1] += mp
         gotm = {float(x): [y, mp] for x, y, mp in list(zip(PM.x, PM.y, PM.mp))[1:-1]}
@@ -310,7 +322,7 @@ def o_C04(sc):
             tot = np.zeros(len(sel[k].spikes))
             for l in range(n):
                 if l != k:
-                    tot = tot + quiet(spk.spike_directionality_values, [sel[k], sel[l]], **mt, **kw)[0]
+                    tot = tot + quiet(spk.spike_directionality_values, [sel[k], sel[l]], **mt, **kwp)[0]
             if not aeq(V[k], tot / (n - 1)):
                 return 'C04 directionality values are not the average over the other N-1 trains'
     return None
@@ -331,14 +343,17 @@ def o_C05(sc):
         kw = kwargs_of(sc, meas)
         mt = mt_of(sc) if meas in ('sync', 'order') else {}
         iv = iv_of(sc) if meas != 'order' else {}
-        for args in ([L[0], L[1]], [L]):
+        forms = [([L[0], L[1]], {}), ([L], {})]
+        if sc.get('indices'):
+            forms.append(([L], {'indices': sc['indices']}))
+        for args, ik in forms:
             if args[0] is L and len(L) < 2:
                 continue
-            d = quiet(dist, *args, **iv, **mt, **kw)
-            p = quiet(prof, *args, **mt, **kw)
+            d = quiet(dist, *args, **ik, **iv, **mt, **kw)
+            p = quiet(prof, *args, **ik, **mt, **kw)
             e = quiet(p.avrg, iv.get('interval'))
             if not feq(d, e):
-                return 'C05 %s(%s)=%r but profile average=%r' % (meas, 'pair' if len(args) == 2 else 'list', d, e)
+                return 'C05 %s(%s%s)=%r but profile average=%r' % (meas, 'pair' if len(args) == 2 else 'list', ', indices=%s' % ik['indices'] if ik else '', d, e)
     return None
 
 
@@ -832,6 +847,23 @@ def o_C18(sc):
         f = quiet(spk.filter_by_spike_sync, L, 0.5, **mt, **kwargs_of(sc))
     except Exception as ex:
         return 'C18 filter_by_spike_sync raised %r' % ex
+    # the same (valid) objects used again, now with reconciliation switched off and MRTS='auto':
+    # earlier calls must not have left them in a state that makes a later call fail
+    for t in L:
+        if not isinstance(t.spikes, np.ndarray):
+            return 'C18 after earlier calls a spike train passed in no longer holds a numpy array (%s)' % type(t.spikes).__name__
+    for name, f, extra in API_FUNCS:
+        k = {'Reconcile': False, 'MRTS': 'auto'}
+        if 'max_tau' in extra:
+            k.update(mt)
+        try:
+            r = quiet(f, L, **k) if 'list' in extra else quiet(f, L[0], L[1], **k)
+        except Exception as ex:
+            return 'C18 %s(Reconcile=False, MRTS=\'auto\') on trains used before raised %r' % (name, ex)
+    try:
+        quiet(spk.filter_by_spike_sync, L, 0.5, Reconcile=False, **mt)
+    except Exception as ex:
+        return 'C18 filter_by_spike_sync(Reconcile=False) on trains used before raised %r' % ex
     return None
 
 
